@@ -18,6 +18,7 @@ import Aqv.Lemmas.EvmGas
 import Aqv.Lemmas.EvmBitmap
 import Aqv.Model.EvmSelect
 import Aqv.Lemmas.EvmRun
+import Aqv.Lemmas.EvmMemTotal
 import Aqv.Lemmas.Translated.Vm
 import Aqv.Lemmas.Translated.Params
 namespace Aqv.Props.C08
@@ -418,5 +419,28 @@ theorem eip_switches_code_is_model (blk : Option Nat) (num : Nat) :
 example : Aqv.Gen.Translated.ChainConfig_IsEIP158 (c_EIP158Block := some 36050) (some 36050) = some true ∧
     Aqv.Gen.Translated.ChainConfig_IsEIP158 (c_EIP158Block := some 36050) (some 36049) = some false ∧
     Aqv.Gen.Translated.ChainConfig_IsEIP158 (c_EIP158Block := none) (some 1) = some false := by decide
+
+/-! ## growth 6: memory growth for every offset/length outside the wrap range -/
+
+/-- `memory_growth_spec_partial` only covered requests ≤ 0x1fffffffe0. For EVERY offset and length (any Nat, in particular every
+    256-bit operand pair) whose word-rounded request is not in the recorded uint64-wrap range (0x1fffffffe0, 0xffffffffe0], exactly one
+    of three things happens, and in each the Go chain calcMemSize → size prologue → memoryGasCost → Resize does what the Yellow Paper
+    prescribes: (a) the size prologue reports "gas uint64 overflow", or (b) memoryGasCost does — in both the specified expansion fee
+    is ≥ 2⁶⁰ (out of gas under A1) —, or (c) the fee is exactly C_mem(new) − C_mem(cur) and the resized memory has M(cur, off, len)
+    words, fully paid. So the excluded operand set of the memory clause is now exactly the wrap range. -/
+theorem memory_growth_spec_outside_wrap (mem : Mem) (cur off len : Nat) (hok : MemOk mem cur) (hcur : cur ≤ 0xffffffff)
+    (hnw : ¬ (len ≠ 0 ∧ 0x1fffffffe0 < 32 * EvmSpec.words (off + len) ∧ 32 * EvmSpec.words (off + len) ≤ 0xffffffffe0)) :
+    (memorySizeOf (calcMemSize (off : Int) (len : Int)) = none ∧
+      EvmSpec.cmem (EvmSpec.memExpand cur off len) - EvmSpec.cmem cur ≥ 2 ^ 60) ∨
+    (∃ r, memorySizeOf (calcMemSize (off : Int) (len : Int)) = some r ∧ memoryGasCost mem r = none ∧
+      EvmSpec.cmem (EvmSpec.memExpand cur off len) - EvmSpec.cmem cur ≥ 2 ^ 60) ∨
+    (∃ r fee mem', memorySizeOf (calcMemSize (off : Int) (len : Int)) = some r ∧ memoryGasCost mem r = some (fee, mem') ∧
+      fee.toNat = EvmSpec.cmem (EvmSpec.memExpand cur off len) - EvmSpec.cmem cur ∧
+      MemOk (memResize mem' r) (EvmSpec.memExpand cur off len)) :=
+  Evm.memory_growth_total mem cur off len hok hcur hnw
+-- non-vacuity: an MSTORE at offset 2^256−32 (case a), at 2^40 (case b) and at 64 (case c) all satisfy the hypothesis
+example : ¬ ((32 : Nat) ≠ 0 ∧ 0x1fffffffe0 < 32 * EvmSpec.words (2 ^ 256 - 32 + 32) ∧ 32 * EvmSpec.words (2 ^ 256 - 32 + 32) ≤ 0xffffffffe0) := by decide
+example : ¬ ((32 : Nat) ≠ 0 ∧ 0x1fffffffe0 < 32 * EvmSpec.words (2 ^ 40 + 32) ∧ 32 * EvmSpec.words (2 ^ 40 + 32) ≤ 0xffffffffe0) := by decide
+example : ¬ ((32 : Nat) ≠ 0 ∧ 0x1fffffffe0 < 32 * EvmSpec.words (64 + 32) ∧ 32 * EvmSpec.words (64 + 32) ≤ 0xffffffffe0) := by decide
 
 end Aqv.Props.C08
